@@ -33,6 +33,7 @@ func init() {
 			{From: "C08.c", Match: "batch-cleanup", As: "C04.g", Why: "a deletion whose write batch is not committed leaves headers in the datastore that the caches, the pending batch and the pointers no longer know: Has/Get still find them while HasAt says no"},
 			{From: "C12.a", Match: "lookup-before-wait", As: "C04.a", Why: "every appended header is readable by height wherever it sits: a by-height read that waits for the published height without a full lookup first never finds a flushed header above a gap"},
 			{From: "C12.a", Match: "second-lookup-returned", As: "C04.a", Why: "see lookup-before-wait"},
+			{From: "C12.b", Match: "recheck-under-lock", As: "C04.a", Why: "a stored header equal to Head is readable by height: a reader that subscribes to exactly the height the write loop has just published has to notice it under the lock, or it waits for a signal nobody sends"},
 			{From: "C17.e", Match: "pointer-move-unconditional", As: "C04.c", Why: "Head is the top of the contiguous run only if every append round re-evaluates it, whatever range was appended"},
 		},
 	})
